@@ -5,7 +5,7 @@
    A key is a list of positions into the current array: ANY order, repeats allowed; chains of any depth;
    both avoid_copies modes (pandas' normalisation of slices / masks / negative ints to positions is done by
    the harness and not modelled). *)
-From SA Require Import Base.Prelude Index.Index Index.Index_Spec View.View View.View_Spec View.View_Proofs.
+From SA Require Import Base.Prelude Index.Index Index.Index_Spec View.View View.View_Spec View.View_Proofs View.View_Phrase Query.Phrase_Spec.
 Open Scope N_scope.
 
 Theorem C06_selection_succeeds : forall docs bs ix avoid keys,
@@ -43,7 +43,27 @@ Theorem C06_score_statistics : forall docs bs ix avoid keys v t,
 Proof. exact C06_score_args. Qed.
 Print Assumptions C06_score_statistics.
 
-(* NOT yet proved: the phrase clause (phrase frequencies of a view = parent's re-indexed) and range-restricted tf. *)
+(* phrase frequencies of a selection (phrases of >= 2 terms without an immediately repeated term) *)
+Theorem C06_phrase_commutes : forall docs bs ix avoid keys v ph,
+  wf_docs docs -> index false bs docs = AOk ix -> valid_keys (length docs) keys ->
+  select_chain (of_index ix avoid) keys = AOk v ->
+  (2 <= length ph)%nat -> no_adjacent_repeat ph = true ->
+  v_phrase_freqs v ph None None = AOk (phrase_spec (view_docs docs keys) ph).
+Proof. exact C06_phrase. Qed.
+Print Assumptions C06_phrase_commutes.
+
+(* scoring a selection = re-indexing the parent's scores (default / parameterised BM25, single terms and
+   phrases without adjacent repeats): "scoring a filtered or re-ordered frame equals filtering or re-ordering the scores" *)
+Theorem C06_score_commutes_with_selection : forall docs bs ix avoid keys v ts idf k1 b,
+  wf_docs docs -> index false bs docs = AOk ix -> valid_keys (length docs) keys ->
+  select_chain (of_index ix avoid) keys = AOk v -> no_adjacent_repeat ts = true ->
+  v_score_bm25 v ts idf k1 b =
+    ado s <- v_score_bm25 (of_index ix avoid) ts idf k1 b;
+    AOk (map (fun r => nth (N.to_nat r) s 0%Z) (compose_rows (rows0 docs) keys)).
+Proof. exact C06_score_commutes. Qed.
+Print Assumptions C06_score_commutes_with_selection.
+
+(* NOT proved: range-restricted tf on views, phrases with adjacent repeats, element access. *)
 Example C06_unsorted_duplicate_negative_keys :
   let docs := [[1;2;1;3];[];[2];[1;1;2];[3;1]] in
   match index false 100 docs with
